@@ -1098,6 +1098,8 @@ pub struct Pair<A: App> {
     pub keylog: Arc<mtls::KeyLog>,
     pub cch: ConnectionHandle,
     pub client_cfg: ClientConfig,
+    /// `cfg.client.name` of the configuration this pair was built from
+    pub cfg_name: String,
 }
 
 pub fn server_config(cfg: &PairCfg, keylog: Arc<mtls::KeyLog>, time: Arc<SimTime>) -> ServerConfig {
@@ -1188,7 +1190,7 @@ impl<A: App> Pair<A> {
         pre(&mut w);
         let cch = w.connect(CLIENT, SERVER, cc.clone(), client_app);
         w.settle_conn(CLIENT, cch);
-        Self { w, keylog, cch, client_cfg: cc }
+        Self { w, keylog, cch, client_cfg: cc, cfg_name: cfg.client.name.clone() }
     }
 
     pub fn sch(&self) -> Option<ConnectionHandle> {
